@@ -2,6 +2,7 @@ import FluentModel.Parser
 import FluentModel.Resolver
 import FluentModel.ResolverSpec
 import FluentModel.Builtins
+import FluentModel.Plural
 import FluentModel.Unescape
 import FluentModel.Drv.Common
 /-!
@@ -142,7 +143,9 @@ def runOne (payload : String) : String :=
     let tr := kvOf cfg "tr"
     let fm := kvOf cfg "fm"
     let loc := kvOf cfg "loc"
-    if loc != "en" && loc != "en-US" then "unsupported" else
+    -- locales whose language the plural model knows (others fall back to `en` in the crate's negotiation,
+    -- which the model also does, but only the listed ones are validated)
+    if !(["en", "en-US", "pl", "ru", "ar", "fr", "cs", "lt", "ja", "pl-PL", "fr-CA", "xx"].contains loc) then "unsupported" else
     -- functions first, then resources in order
     let reg0 : Reg := if fns == "-" then [] else
       (fns.splitOn ",").foldl (fun r name =>
@@ -171,7 +174,9 @@ def runOne (payload : String) : String :=
           transform := if tr == "upper" then some Builtins.upperAscii else none
           formatter := if fm == "numbr" then some Builtins.formatterNumBr
                        else if fm == "strwrap" then some Builtins.formatterStrWrap else none
-          category := Builtins.categoryEn
+          category := fun n => (Plural.pluralCategory loc n).map fun c =>
+            match c with
+            | .zero => Category.zero | .one => .one | .two => .two | .few => .few | .many => .many | .other => .other
           tryNumber := fun b => (tryNumberValue b).getD (.str b)
           unescape := unescapeTotal
           customStr := Builtins.customStr
